@@ -18,6 +18,8 @@ import common as C
 LEVEL = "proof"
 KNOWN_CLASS = "shorthand_format_controls"
 KNOWN_VS = "variation_selector_blocks_decomposition"
+KNOWN_ATTACH = "gpos_attached_ignorable_keeps_attachment_offset"
+KNOWN_ATTACH_OBSERVED = "4,0,0,0,-510,0"
 VARIATION_SELECTORS = set(range(0xFE00, 0xFE10)) | set(range(0xE0100, 0xE01F0)) | {0x180B, 0x180C, 0x180D, 0x180F}
 PRECOMPOSED = {0xE1, 0xE9, 0x1E0D}   # the precomposed letters of the search texts (c13.rs `search`)
 
@@ -418,6 +420,27 @@ def run(chk):
             chk.violation(f["what"], f)
     # a model/implementation disagreement outside the known class is explained by a classification difference already
     # reported; otherwise it is a broken tie
+    # deterministic probe of the listed instance of the class gpos_attached_ignorable_keeps_attachment_offset
+    rc, out, err = C.run_rbv(binp, ["c13", "attach_probe"])
+    plines = [l for l in out.splitlines() if l.startswith("attach_probe")]
+    chk.note("attach_probe", plines)
+    hidden = [l.split(" -> ")[1].split(";")[1] for l in plines[:2] if " -> " in l and ";" in l]
+    if len(hidden) == 2:
+        if all(h == KNOWN_ATTACH_OBSERVED for h in hidden):
+            if chk.is_known(KNOWN_ATTACH):
+                chk.known_finding(KNOWN_ATTACH, "<a, U+034F> and <a, U+200D> on the probe font: hidden glyph = %s (gid,cluster,xa,ya,xo,yo)" % hidden[0])
+            elif n_viol < 8:
+                n_viol += 1
+                chk.violation("hidden-ignorable-has-offset", {"what": "hidden-ignorable-has-offset", "probe": plines})
+        elif all(h.split(",")[2:] == ["0", "0", "0", "0"] for h in hidden):
+            chk.note("stale_known_finding", KNOWN_ATTACH)
+        elif n_viol < 8:
+            n_viol += 1
+            chk.violation("hidden-ignorable-not-zeroed", {"what": "hidden-ignorable-not-zeroed", "probe": plines,
+                          "note": "differs from the listed instance of %s (%s)" % (KNOWN_ATTACH, KNOWN_ATTACH_OBSERVED)})
+    elif n_viol < 8:
+        n_viol += 1
+        chk.violation("attach-probe-failed", {"what": "attach-probe-failed", "probe": plines, "stderr": err[-400:]})
     if vs_seen:
         chk.known_finding(KNOWN_VS, "%d case(s), e.g. %s -> %s" % (len(vs_seen), vs_seen[0]["case"], vs_seen[0]["clause"]))
     if known_seen:
